@@ -215,3 +215,111 @@ theorem rank_lt_iff (hb : Bool) (pop : List Ind) (i j : Nat) :
 
 end SelLemmas
 end Uec
+
+namespace Uec
+namespace SelLemmas
+
+/-! ### Lexicase loops: candidates stay candidates, errors have causes -/
+
+theorem lexScan_sub (hb : Bool) (pop : List Ind) (total c : Nat) (l : List Nat) :
+    ∀ (ws : List Nat) (best : Int) (ws' : List Nat) (best' : Int),
+      lexScan hb pop total c l (ws, best) = .ok (ws', best') →
+      (∀ i ∈ ws', i ∈ ws ∨ i ∈ l) ∧ (ws ≠ [] → ws' ≠ []) := by
+  induction l with
+  | nil => intro ws best ws' best' h; simp [lexScan] at h; obtain ⟨rfl, rfl⟩ := h; exact ⟨fun i hi => .inl hi, id⟩
+  | cons j rest ih =>
+    intro ws best ws' best' h
+    simp only [lexScan] at h
+    split at h
+    · cases h
+    · split at h
+      · obtain ⟨h1, h2⟩ := ih _ _ _ _ h
+        exact ⟨fun i hi => (h1 i hi).elim .inl (fun x => .inr (List.mem_cons_of_mem _ x)), h2⟩
+      · obtain ⟨h1, h2⟩ := ih _ _ _ _ h
+        refine ⟨fun i hi => ?_, fun _ => h2 (by simp)⟩
+        rcases h1 i hi with x | x
+        · rcases List.mem_append.mp x with x | x
+          · exact .inl x
+          · simp at x; exact .inr (by simp [x])
+        · exact .inr (List.mem_cons_of_mem _ x)
+      · obtain ⟨h1, h2⟩ := ih _ _ _ _ h
+        refine ⟨fun i hi => ?_, fun _ => h2 (by simp)⟩
+        rcases h1 i hi with x | x
+        · simp at x; exact .inr (by simp [x])
+        · exact .inr (List.mem_cons_of_mem _ x)
+
+theorem lexScan_err (hb : Bool) (pop : List Ind) (total c : Nat) (l : List Nat) :
+    ∀ (st : List Nat × Int) (e : SelErr), lexScan hb pop total c l st = .error e →
+      e = .missingTestCase total c ∧ ∃ j ∈ l, resultAt pop j c = none := by
+  induction l with
+  | nil => intro st e h; simp [lexScan] at h
+  | cons j rest ih =>
+    intro st e h
+    obtain ⟨ws, best⟩ := st
+    simp only [lexScan] at h
+    split at h
+    · rename_i hnone
+      cases h
+      exact ⟨rfl, j, by simp, hnone⟩
+    · split at h <;>
+      · obtain ⟨h1, j', hj', h2⟩ := ih _ _ h
+        exact ⟨h1, j', List.mem_cons_of_mem _ hj', h2⟩
+
+theorem lexLoop_sub (hb : Bool) (pop : List Ind) (total : Nat) (order : List Nat) :
+    ∀ (cands cs : List Nat), lexLoop hb pop total order cands = .ok cs →
+      (∀ i ∈ cs, i ∈ cands) ∧ (cands ≠ [] → cs ≠ []) := by
+  induction order with
+  | nil => intro cands cs h; simp [lexLoop] at h; subst h; exact ⟨fun _ h => h, id⟩
+  | cons c rest ih =>
+    intro cands cs h
+    match cands, h with
+    | [], h => simp [lexLoop] at h
+    | [x], h => simp [lexLoop] at h; subst h; exact ⟨fun _ h => h, id⟩
+    | first :: y :: rem, h =>
+      simp only [lexLoop] at h
+      split at h
+      · cases h
+      · split at h
+        · cases h
+        · rename_i winners _ hscan
+          obtain ⟨h1, h2⟩ := lexScan_sub hb pop total c _ _ _ _ _ hscan
+          obtain ⟨h3, h4⟩ := ih _ _ h
+          refine ⟨fun i hi => ?_, fun _ => h4 (h2 (by simp))⟩
+          rcases h1 i (h3 i hi) with x | x
+          · simp at x; simp [x]
+          · exact List.mem_cons_of_mem _ x
+
+theorem lexLoop_err (hb : Bool) (pop : List Ind) (total : Nat) (order : List Nat) :
+    ∀ (cands : List Nat) (e : SelErr), lexLoop hb pop total order cands = .error e →
+      (e = .lexEmpty ∧ cands = []) ∨
+      (∃ c ∈ order, e = .missingTestCase total c ∧ ∃ j ∈ cands, resultAt pop j c = none) := by
+  induction order with
+  | nil => intro cands e h; simp [lexLoop] at h
+  | cons c rest ih =>
+    intro cands e h
+    match cands, h with
+    | [], h => simp [lexLoop] at h; exact .inl ⟨h.symm, rfl⟩
+    | [x], h => simp [lexLoop] at h
+    | first :: y :: rem, h =>
+      right
+      simp only [lexLoop] at h
+      split at h
+      · rename_i hnone
+        cases h
+        exact ⟨c, by simp, rfl, first, by simp, hnone⟩
+      · split at h
+        · rename_i e' hscan
+          cases h
+          obtain ⟨h1, j, hj, h2⟩ := lexScan_err hb pop total c _ _ _ hscan
+          exact ⟨c, by simp, h1, j, List.mem_cons_of_mem _ hj, h2⟩
+        · rename_i winners _ hscan
+          obtain ⟨h1, h2⟩ := lexScan_sub hb pop total c _ _ _ _ _ hscan
+          rcases ih _ _ h with ⟨_, h0⟩ | ⟨c', hc', he, j, hj, hn⟩
+          · exact absurd h0 (h2 (by simp))
+          · refine ⟨c', List.mem_cons_of_mem _ hc', he, j, ?_, hn⟩
+            rcases h1 j hj with x | x
+            · simp at x; simp [x]
+            · exact List.mem_cons_of_mem _ x
+
+end SelLemmas
+end Uec
